@@ -5,18 +5,19 @@ Lemma tr_cts_locked_id : forall m v v', tr_cts_locked m v = Some v' -> v' = v.
 Proof. intros m v v' H. destruct v; cbn in H; inversion H; auto. Qed.
 
 Lemma ctsd_rb_async : forall s s' r T p m, stepr s (ECtsDeliver r T p StRolledBack) = Ok s' ->
-  kget s T p = Locked m -> m <> 0 -> F s' T FStFb <> 0.
+  kget s T p = Locked m -> m <> 0 -> existsb (fun sc => (fst sc =? T) && (snd sc =? 0)) (s_wr s) = false -> F s' T FStFb <> 0.
 Proof.
-  intros s s' r T p m H E Hm. cbn [stepr] in H. unfold step_cts_deliver in H. chks H. rewrite E in *.
-  apply N.eqb_neq in Hm. rewrite Hm in *. cbn [negb] in H.
+  intros s s' r T p m H E Hm Hw. cbn [stepr] in H. unfold step_cts_deliver in H. chks H. rewrite E in *.
+  apply N.eqb_neq in Hm. rewrite Hm, Hw in *. cbn [negb andb] in H.
   destruct (step_key _ _ _ _) as [s2 |] eqn:K; try discriminate. okinv H. unfold F.
   rewrite (step_key_getc _ _ _ _ _ T K). rd. discriminate.
 Qed.
 
 Lemma asyncm_ctsd_back : forall s s' r T p st, stepr s (ECtsDeliver r T p st) = Ok s' -> asyncm s' T -> asyncm s T.
 Proof.
-  intros s s' r T p st H [B1 [B2 [B3 [B4 B5]]]]. destruct (ctsd_fields _ _ _ _ _ _ T H) as [A B]. unfold asyncm, hasm, F in *.
-  rewrite (A FHasm), (A FTriedA), (A FTried1), (A FFb) in * by discriminate. repeat split; auto.
+  intros s s' r T p st H [B1 [B2 [B3 [B4 B5]]]]. destruct (ctsd_fields _ _ _ _ _ _ T H) as [A B].
+  apply (no1pc_back _ _ _ _ H) in B3. unfold asyncm, hasm, F in *.
+  rewrite (A FHasm), (A FTriedA), (A FFb) in * by discriminate. repeat split; auto.
 Qed.
 
 Lemma ainv_cts_deliver : forall s s' r T p st, Inv s -> Linv s -> stepr s (ECtsDeliver r T p st) = Ok s' ->
@@ -24,12 +25,18 @@ Lemma ainv_cts_deliver : forall s s' r T p st, Inv s -> Linv s -> stepr s (ECtsD
 Proof.
   intros s s' r T p st HI HL H AI Am'. destruct (HI T) as [G _]. pose proof (HL T) as L.
   pose proof (asyncm_ctsd_back _ _ _ _ _ _ H Am') as Am. pose proof (AI Am) as A. pose proof (proj1 Am) as Hm.
-  assert (NL : st = StRolledBack -> forall m, kget s T p = Locked m -> m = 0).
-  { intros -> m E. destruct (N.eq_dec m 0); auto. exfalso. destruct Am' as [_ [_ [_ [_ B]]]]. eapply ctsd_rb_async; eauto. }
+  assert (NL : st = StRolledBack -> forall m, kget s T p = Locked m ->
+               m = 0 \/ existsb (fun sc => (fst sc =? T) && (snd sc =? 0)) (s_wr s) = true).
+  { intros -> m E. destruct (N.eq_dec m 0); auto. right.
+    destruct (existsb (fun sc => (fst sc =? T) && (snd sc =? 0)) (s_wr s)) eqn:Ew; auto.
+    exfalso. destruct Am' as [_ [_ [_ [_ B]]]]. eapply ctsd_rb_async; eauto. }
   pose proof (ctsd_acct _ _ _ _ _ _ T H NL) as SA.
   pose proof (stepr_lists _ _ _ H) as [Ls [Ld _]]. cbn [reply_of] in Ld.
-  assert (NoLk : st = StRolledBack -> forall m, kget s T p <> Locked m).
-  { intros E m El. pose proof (NL E m El). subst. apply (a_lam _ _ A _ _ (l_locked _ _ L _ _ El)). auto. }
+  (* a locked primary reported "rolled back": a whole-region resolve with commit ts 0 removed the lock *)
+  assert (NoLk : st = StRolledBack -> forall m, kget s T p = Locked m -> NSa s T).
+  { intros E m El. destruct (NL E m El) as [-> | Ew]; [exfalso; apply (a_lam _ _ A _ _ (l_locked _ _ L _ _ El)); auto |].
+    apply existsb_exists in Ew. destruct Ew as [[T' c] [W1 W2]]. cbn [fst snd] in W2. b2p. subst T' c.
+    apply (wr_just s T G L Am A 0 W1). auto. }
   (* how the key moves *)
   assert (J : forall k, jstep s s' T k).
   { intros k. unfold jstep. pose proof H as H2. cbn [stepr] in H2. unfold step_cts_deliver in H2. chks H2.
@@ -45,13 +52,14 @@ Proof.
         apply N.eqb_neq in Z. destruct (wr_just s T G L Am A cc K4) as [W _]. destruct (W Z) as [S1 S2].
         right. right. left. exists m0, cc. auto.
     - match type of H2 with context [if ?bb then _ else _] => destruct bb eqn:Ea end.
-      + exfalso. destruct (kget s T p) eqn:Ek; try discriminate. eapply NoLk; eauto.
+      + exfalso. destruct (kget s T p) eqn:Ek; try discriminate. apply andb_true_iff in Ea. destruct Ea as [Ea1 Ea2].
+        destruct (NL eq_refl _ eq_refl) as [-> | Ew]; [discriminate Ea1 | rewrite Ew in Ea2; discriminate Ea2].
       + destruct (step_key _ _ _ _) as [s2 |] eqn:K; try discriminate. okinv H2. apply step_key_char in K.
-        destruct K as [v [K1 [K2 | [K2 [m0 [c0 [K3 _]]]]]]]; [| exfalso; eapply NoLk; eauto].
+        destruct K as [v [K1 [K2 | [K2 [m0 [c0 [K3 _]]]]]]]; [| cbn in K2; rewrite K3 in K2; discriminate K2].
         apply tr_rb_res in K2. destruct K2 as [-> K2]. rewrite K1. destruct (p =? k) eqn:E; [| left; auto]. apply N.eqb_eq in E. subst k.
         destruct (kget s T p) eqn:Ek.
         * right. left. auto.
-        * exfalso. eapply NoLk; eauto.
+        * right. right. right. exists m. repeat split; auto. eapply NoLk; eauto.
         * exfalso. eapply K2; eauto.
         * left. auto. }
   apply (ainv_stable s s' T L J SA); try exact A.
@@ -126,7 +134,8 @@ Proof.
   { intros x Hx Hi. destruct (Hs x Hi) as [B | [r [ks B]]]; auto. exfalso. eapply Hx; eauto. }
   constructor; intros; rewrite ?El, ?Em, ?Ek, ?Es, ?Ec, ?Ep, ?Emc, ?K, ?Hd, ?Hr in *; auto.
   - apply Hs' in H; [| discriminate]. eapply (a_send _ _ A); eauto.
-  - destruct (a_entry _ _ A _ _ _ _ H) as [B1 [B2 [B3 B4]]]. repeat split; auto. intros k Hk. rewrite ?K, ?El. auto.
+  - destruct (a_entry _ _ A _ _ _ _ H) as [B1 [B2 B4]]. repeat split; auto. intros k Hk. rewrite ?K, ?El. auto.
+  - unfold F. rewrite Ef by discriminate. apply (a_1pcts _ _ A).
   - eapply (a_lam _ _ A); eauto.
   - apply (a_cnt _ _ A).
   - apply (a_commit _ _ A _ _ H).
@@ -148,9 +157,12 @@ Proof.
   apply fb_true in H1. rewrite H1. rewrite (proj2 (fb_false _ _) H3). repeat split; auto. apply fb_true. auto.
 Qed.
 
+Lemma asyncm_cpa : forall s T, asyncm s T -> cp_active (getc s T) = true.
+Proof. intros s T Am. destruct (asyncm_cp _ _ Am) as [_ [H _]]. unfold cp_active. rewrite H. reflexivity. Qed.
+
 Lemma ainv_rb_send : forall s s' r T ks, Linv s -> stepr s (ERbSend r T ks) = Ok s' -> asyncm s T -> ainv s T -> ainv s' T.
 Proof.
-  intros s s' r T ks HL H Am A. pose proof (HL T) as L. destruct (asyncm_cp _ _ Am) as [Hcp [_ _]]. pose proof (proj1 Am) as Hm.
+  intros s s' r T ks HL H Am A. pose proof (HL T) as L. pose proof (asyncm_cpa _ _ Am) as Hcp. pose proof (proj1 Am) as Hm.
   cbn [stepr] in H. unfold step_rb_send in H. chks H. okinv H.
   apply andb_true_iff in C0. destruct C0 as [_ C0]. rewrite Hcp in C0. cbn [negb orb] in C0.
   destruct (err_ok_closed_a _ _ L A Hm C0) as [k0 [K1 [K2 K3]]].
@@ -166,7 +178,7 @@ Qed.
 Lemma ainv_told : forall s s' T x, Inv s -> Linv s -> stepr s (ETold T x) = Ok s' -> asyncm s T -> ainv s T -> ainv s' T.
 Proof.
   intros s s' T x HI HL H Am A. destruct (HI T) as [G _]. pose proof (HL T) as L.
-  destruct (asyncm_cp _ _ Am) as [Hcp [Hak Hh]]. pose proof (proj1 Am) as Hm.
+  destruct (asyncm_cp _ _ Am) as [_ [Hak Hh]]. pose proof (asyncm_cpa _ _ Am) as Hcp. pose proof (proj1 Am) as Hm.
   cbn [stepr] in H. unfold step_told in H. chks H. b2p.
   assert (NoRb : forall r ks, In (ERbSend r T ks) (s_sent s) -> NSa s T) by (intros; apply (a_dead _ _ A); right; eauto).
   destruct x; chks H; okinv H.
@@ -182,7 +194,7 @@ Proof.
       * (* sealed *)
         match goal with Hx : negb (cn _ FPcOk =? 0) || _ || _ = true |- _ => rename Hx into CR end.
         apply orb_true_iff in CR. destruct CR as [CR | CR]; [apply orb_true_iff in CR; destruct CR as [CR | CR] |]; b2p.
-        all: try (exfalso; apply (g_1pcts _ _ G) in CR; destruct Am as [_ [_ [B _]]]; contradiction).
+        all: try (exfalso; apply CR; apply (a_1pcts _ _ A)).
         all: try (pose proof (l_pcok _ _ L Hm CR) as E; destruct (a_commit _ _ A _ _ E) as [S _];
                   unfold Sealed, lm, lamk in *; rd; auto; fail).
         all: intros k Hk; unfold lm, lamk in *; rd;
